@@ -19,12 +19,12 @@ def Consistent (u : NodeRes) (live : List WorkloadRes) : Prop :=
   (∀ k, u.cpuMap.get k = sumBy live (·.cpuMap.get k)) ∧
   (∀ k, u.numaMemory.get k = sumBy live (·.numaMemory.get k))
 
-/-- the same, but per-core and per-NUMA-node only over the keys of the capacity maps (what
-    the node resource check compares) -/
+/-- the same, but per-core only over the keys of the capacity's CPU map (what the node resource
+    check compares; per-NUMA usage is compared on every id) -/
 def ConsistentOn (capacity u : NodeRes) (live : List WorkloadRes) : Prop :=
   u.cpu = sumBy live (·.cpuRequest) ∧ u.memory = sumBy live (·.memoryRequest) ∧
   (∀ k ∈ capacity.cpuMap.keys, u.cpuMap.get k = sumBy live (·.cpuMap.get k)) ∧
-  (∀ k ∈ capacity.numaMemory.keys, u.numaMemory.get k = sumBy live (·.numaMemory.get k))
+  (∀ k, u.numaMemory.get k = sumBy live (·.numaMemory.get k))
 
 def allKeys (m : IMap) (ws : List WorkloadRes) (f : WorkloadRes → IMap) : List String :=
   m.keys ++ ws.flatMap fun w => (f w).keys
